@@ -4,5 +4,13 @@ import CffVerif
 #print axioms Sched.C03_at_most_N_running
 #print axioms Sched.C03_default
 #print axioms Sched.C03_worker_slots
+#print axioms Sched.C05_measure
+#print axioms Sched.C05_progress
+#print axioms Sched.C05_terminates
+#print axioms Sched.C06_no_stuck_goroutine
+#print axioms Sched.C06_post_never_blocks
 #print axioms Sched.C09_nil_implies_not_cancelled
 #print axioms Sched.C09_no_start_after_cancel
+#print axioms Sched.C19_fin_after_exit
+#print axioms Sched.C19_report_consistent
+#print axioms Sched.C19_stop
